@@ -1,6 +1,6 @@
 (* C10 — no-unreachable never flags a statement that can execute.
    Model: CF/Syntax.v (programs, `wf`, `fn_stmt_safe`, `no_fn_stmt`), CF/Analyzer.v (port of control_flow/mod.rs and of the
-   rules; `faithful` = the code before the fix commits, `current` = now (fixes A, B, D), `repaired` = `current`
+   rules; `faithful` = the code before the fix commits, `current` = now (fixes A, B, D, E, F), `repaired` = `current`
    + the candidate repair of the known finding C), CF/Semantics.v (the specification: `exec`, `enters`,
    `prog_enters p pi` = some execution of the function body enters the statement at offset pi). *)
 From V Require Import CF.Syntax CF.Analyzer CF.Semantics CF.SemDecide CF.SemDecideProofs CF.Oracle CF.Soundness
@@ -98,3 +98,22 @@ Theorem C10_refuted_before_fix_D :
   wf wD_c10 /\ In 47 (no_unreachable faithful wD_c10) /\ prog_enters wD_c10 47 /\ c10_violations only_D wD_c10 = [].
 Proof. exact C10_refuted_D. Qed.
 Print Assumptions C10_refuted_before_fix_D.
+
+(* function f() { try { while ((v1(), true)) { } } catch (e) { v2; } }   - `v2;` (60) was reported: the test of a while /
+   do-while was visited after the loop had ended the scope, so that it can throw was not recorded *)
+Theorem C10_refuted_before_fix_F :
+  wf wF_c10 /\ In 60 (no_unreachable faithful wF_c10) /\ prog_enters wF_c10 60 /\ c10_violations only_F wF_c10 = [].
+Proof. exact C10_refuted_F. Qed.
+Print Assumptions C10_refuted_before_fix_F.
+
+(* function f() { try { do { } while ((v1(), true)); } catch (e) { v2; } } *)
+Theorem C10_refuted_before_fix_F_do_while :
+  wf wF_c10_do /\ In 64 (no_unreachable faithful wF_c10_do) /\ prog_enters wF_c10_do 64 /\ c10_violations only_F wF_c10_do = [].
+Proof. exact C10_refuted_F_do. Qed.
+Print Assumptions C10_refuted_before_fix_F_do_while.
+
+(* ... and against the code exactly as it was before that commit (fixes A, B, D, E applied): reported then, not now *)
+Theorem C10_refuted_right_before_fix_F :
+  wf wF_c10 /\ fn_stmt_safe wF_c10 /\ In 60 (no_unreachable before_F wF_c10) /\ prog_enters wF_c10 60 /\ no_unreachable current wF_c10 = [].
+Proof. exact SoundnessRefuted.C10_refuted_right_before_fix_F. Qed.
+Print Assumptions C10_refuted_right_before_fix_F.
